@@ -977,6 +977,10 @@ def _as_iter(pe, st, v):
         return ("iter", tuple(mk_int(ty, x) for x in range(lo[2], hi[2])), 0)
     if v[0] == "array":
         return ("iter", tuple(v[1]), 0)
+    if v[0] == "adt" and v[1] in ("std::option::Option", "core::option::Option"):
+        return ("iter", tuple(v[4][:1]) if v[3] == "Some" else (), 0)  # an Option iterates over its zero or one value
+    if v[0] == "enum" and v[1] in ("std::option::Option", "core::option::Option"):
+        return ("iter", (), 0)
     if v[0] == "ref":
         tgt = pe._load_ptr(st, v[1])
         if tgt != TOP and v[1][0] == "place" and tgt[0] in ("array", "hview", "harr"):
@@ -2987,6 +2991,26 @@ def _arguments_from_str(pe, st, args, t):
     if v != TOP and v[0] == "str":
         return ("fmtargs", ((v[1],), ()))
     return ("tok", "fmt::Arguments")
+
+
+@pmodel("<std::string::String as std::fmt::Write>::write_fmt", "std::fmt::Write::write_fmt", "<std::string::String as std::fmt::Write>::write_str",
+        "<std::string::String as std::fmt::Write>::write_char")
+def _string_write_fmt(pe, st, args, t):
+    r, a = args
+    cur = _deref(pe, st, r)
+    nm = (t.get("callee") or t.get("declared") or "").rsplit("::", 1)[1]
+    if r == TOP or r[0] != "ref" or cur == TOP or cur[0] != "string":
+        raise _Abort("top", "write!() into something that is not a known String")
+    if nm == "write_fmt":
+        add = _fmt_format(pe, st, [a], t)[1]
+    elif nm == "write_str":
+        add = _str_tokens(pe, st, a)
+    else:
+        add = _char_tokens(a)
+    if add is None:
+        raise _Abort("top", "write!() of unknown text")
+    pe.store_ptr(st, r[1], ("string", cur[1] + tuple(add)))
+    return ("adt", RESULT, 0, "Ok", (UNIT,))
 
 
 @pmodel("core::fmt::rt::Argument::<'_>::new_display")
